@@ -5,6 +5,7 @@ import (
 	"context"
 	"encoding/json"
 	"fmt"
+	"math/big"
 	"runtime"
 	"sort"
 	"strings"
@@ -17,7 +18,9 @@ import (
 	"github.com/ethereum/go-ethereum/core/state"
 	"github.com/ethereum/go-ethereum/core/types"
 	"github.com/ethereum/go-ethereum/core/vm"
+	"github.com/ethereum/go-ethereum/params"
 	"github.com/ethereum/go-ethereum/rlp"
+	"github.com/ethereum/go-ethereum/trie"
 
 	"verifsim/simcore"
 	"verifsim/simdisk"
@@ -36,7 +39,7 @@ type Plan33 struct {
 
 func gen33(r *simcore.Rand, tier string) any {
 	p := &Plan33{}
-	p.World = genWorld(r, worldOpts{forks: []string{"amsterdam"}, maxBlocks: 2, maxTxs: 24, maxContr: 7, lowGasProb: 0.12, blockhash: true})
+	p.World = genWorld(r, worldOpts{forks: []string{"amsterdam"}, maxBlocks: 2, maxTxs: 24, maxContr: 7, lowGasProb: 0.12, blockhash: true, pressure: true})
 	p.Procs = []int{1, 2, 3, 4, 8, 16}[r.Intn(6)]
 	p.Scheme = []string{rawdb.HashScheme, rawdb.PathScheme}[r.Intn(2)]
 	p.CleanMB = []int{0, 1, 16}[r.Intn(3)]
@@ -369,6 +372,14 @@ func run33(t *testing.T, pl any) *simcore.Result {
 			}
 		}
 		res.Probes["txs"] += ntx
+		for _, tx := range blk.Transactions() {
+			if tx.Gas() > params.MaxTxGas {
+				res.Probes["txs-with-limit-above-max-tx-gas"]++
+			}
+		}
+		if blk.GasUsed() > blk.GasLimit()/3 {
+			res.Probes["blocks-using-over-a-third-of-gas-limit"]++
+		}
 		if !par.bc.VerifExecsimUsesAccessList(blk, false) {
 			simcore.Harnessf("execsim C33: block %d would not take the access-list driven path", bi)
 		}
@@ -383,23 +394,42 @@ func run33(t *testing.T, pl any) *simcore.Result {
 			if mu.Kind >= 0 && mu.Kind < len(mutNames) {
 				name = mutNames[mu.Kind]
 			}
-			if !applyMut(&m, mu, uint64(ntx+1)) {
-				res.Probes["mutation-no-target"]++
-				continue
+			var bad *types.Block
+			if name == "append-tx-over-gas-pool" {
+				// not an access-list edit: an otherwise valid extra transaction whose gas limit cannot fit the block
+				// gas pool; the transaction root is recomputed, so only the processors' gas accounting can reject it.
+				// Both modes must agree on rejecting.
+				from := int(mu.A) % p.World.Senders
+				to := senderAddr(int(mu.B) % p.World.Senders)
+				feeCap := new(big.Int).Add(blk.BaseFee(), big.NewInt(2_000_000_000))
+				extra := types.MustSignNewTx(senderKeys[from].key, b.signer, &types.DynamicFeeTx{
+					ChainID: b.gspec.Config.ChainID, Nonce: b.nonces[from], To: &to, Value: big.NewInt(1),
+					Gas: blk.GasLimit() + 1 + uint64(mu.C%1000), GasFeeCap: feeCap, GasTipCap: big.NewInt(1),
+				})
+				body := *blk.Body()
+				body.Transactions = append(append(types.Transactions{}, body.Transactions...), extra)
+				h := blk.Header()
+				h.TxHash = types.DeriveSha(types.Transactions(body.Transactions), trie.NewStackTrie(nil))
+				bad = types.NewBlockWithHeader(h).WithBody(body).WithAccessListUnsafe(blk.AccessList().Copy())
+			} else {
+				if !applyMut(&m, mu, uint64(ntx+1)) {
+					res.Probes["mutation-no-target"]++
+					continue
+				}
+				mlist, enc, err := mirrorToBal(m)
+				if err != nil {
+					res.Probes["mutation-not-encodable"]++
+					continue
+				}
+				if bytes.Equal(enc, trueEnc.Bytes()) {
+					res.Probes["mutation-identical"]++
+					continue
+				}
+				h := blk.Header()
+				mh := mlist.Hash()
+				h.BlockAccessListHash = &mh
+				bad = types.NewBlockWithHeader(h).WithBody(*blk.Body()).WithAccessListUnsafe(mlist)
 			}
-			mlist, enc, err := mirrorToBal(m)
-			if err != nil {
-				res.Probes["mutation-not-encodable"]++
-				continue
-			}
-			if bytes.Equal(enc, trueEnc.Bytes()) {
-				res.Probes["mutation-identical"]++
-				continue
-			}
-			h := blk.Header()
-			mh := mlist.Hash()
-			h.BlockAccessListHash = &mh
-			bad := types.NewBlockWithHeader(h).WithBody(*blk.Body()).WithAccessListUnsafe(mlist)
 			res.Faults["mut:"+name]++
 			for ci, c := range []*sutChain{par, seq} {
 				mode := []string{"parallel", "sequential"}[ci]
